@@ -33,7 +33,7 @@ func registerAll() {
 	stubsNet := []string{"channel (in-flight slots, fault injector)", "verifier actors (trust store = one pool key each)", "deterministic crypto.Signer wrapper over pool keys",
 		"sim extension profile XP2", "committed key pool"}
 	props["C02"] = &propSpec{
-		ID: "C02", Worlds: []string{"W-NET"}, QuickRuns: 2500, ThoroughRuns: 300000,
+		ID: "C02", Worlds: []string{"W-NET"}, QuickRuns: 2500, ThoroughRuns: 200000,
 		Rule: "one run = 2..5 attesters (all seven algorithms, several keys per algorithm) emitting 2..6 tokens through reused Evidence objects; every token is delivered un-damaged to the right verifier, then 1..4 copies each take 1..3 channel faults (bit flip, byte substitution, multi-byte edit, truncation, extension, splice of protected/payload/signature from another in-flight token, header surgery, length-field inflation, concatenation) and are delivered to a verifier holding the right or a wrong key; the genuine token is also misrouted. " +
 			"Runs 0..13 of every batch instead deliver EVERY single-bit flip of one token per (algorithm x profile). " +
 			"non-trivial = at least one damaged token still decoded, so that Verify was the deciding step; distinct = distinct hash of (operation+fault kind sequence, claims shapes, algorithms, keys)",
@@ -114,7 +114,7 @@ func registerAll() {
 	}
 
 	props["C17"] = &propSpec{
-		ID: "C17", Worlds: []string{"W-CONC"}, QuickRuns: 320, ThoroughRuns: 40000, Isolated: true, MinExecs: 120,
+		ID: "C17", Worlds: []string{"W-CONC"}, QuickRuns: 320, ThoroughRuns: 30000, Isolated: true, MinExecs: 120,
 		Rule: "one run = 2..16 (thorough: up to 64) client tasks, each a real goroutine running 3..10 read-side operations (NewClaims; decode CBOR / JSON / COSE with and without validation; build+observe; Sign; Sign+Verify on private objects - and Validate, all getters, CBOR / JSON / validating encoders, Verify, Evidence.MarshalJSON, full observation on 1..4 SHARED claims-sets and decoded Evidence, read-only), under a seeded schedule: the PRNG names the next task at every one of the ~990 yield points woven before every statement of the library (switch probability 1, 1/4 or 1/32 per yield, or a PCT priority schedule with 1..3 change points); the race detector watches the race-instrumented library while the scheduler itself stays invisible to it; the same task lists then run sequentially on freshly built objects. " +
 			"non-trivial = at least one switch into a task that was itself in the middle of a library call; distinct = distinct hash of (recorded schedule as run-length list of task ids per yield, operation lists)",
 		Real: commonReal, Stubs: []string{"turn scheduler (simrt, //go:norace, Gosched hand-over, GOMAXPROCS=1)", "deterministic crypto.Signer wrapper over pool keys", "sim extension profiles XP1/XP2", "one child process per trace"},
